@@ -1,11 +1,146 @@
-/- C03 — executable model (stub; filled in by the property's owner). -/
+/-
+C03 — `label` (`mahotas/_labeled.cpp`: `find`, `join`, `compress`, `label`; `labeled.py`: `label`).
+
+The model is a transliteration: the int32 output buffer doubles as the union–find parent array
+(`data[i] = i` for foreground, `-1` for background), every foreground pixel is joined with the
+*value read at* each neighbour the filter iterator yields, every pixel is compressed, and the roots
+are renumbered in order of first appearance with an ordered map seeded with `-1 ↦ 0`.
+The specification (`specLabels`) is written independently: least flat index of the component
+(fixpoint of neighbour-minimum over the symmetric adjacency) and numbering by counting roots.
+-/
 import Mahotas.Model.Border
 import Mahotas.Model.DType
 namespace Mahotas.C03
 open Mahotas
 
+/-! ### union–find on the label buffer -/
+
+/-- `find(data, i)`: recursive, full path compression on the way back. `fuel` bounds the recursion
+    (the C++ recursion terminates because the parent forest is acyclic; `N + 1` always suffices). -/
+def find : Nat → Array Int → Nat → Array Int × Nat
+  | 0, par, i => (par, i)
+  | fuel + 1, par, i =>
+    let p := par.getD i (-1)
+    if p = (i : Int) then (par, i) else
+    let res := find fuel par p.toNat
+    (res.1.setIfInBounds i (res.2 : Int), res.2)
+
+/-- `join(data, i, j)`: `data[find i] = find j`. -/
+def join (fuel : Nat) (par : Array Int) (i j : Nat) : Array Int :=
+  let r1 := find fuel par i
+  let r2 := find fuel r1.1 j
+  r2.1.setIfInBounds r1.2 (r2.2 : Int)
+
+/-- `compress(data, i)` -/
+def compress (fuel : Nat) (par : Array Int) (i : Nat) : Array Int := (find fuel par i).1
+
+/-! ### neighbours through the filter iterator -/
+
+/-- the offsets `k - c` (C order over the element, `c = shape / 2`) of the non-zero entries:
+    `filter_iterator(..., compress = true)` -/
+def offsets (bshape : List Nat) (bc : Array Int) : List (List Int) :=
+  let c := centreOf bshape
+  (List.range (shapeSize bshape)).filterMap fun i =>
+    if bc.getD i 0 == 0 then none else some (subPos (unravelI bshape i) c)
+
+/-- flat indices the iterator yields at position `p`, in footprint order. With `Mode.constant`
+    (the code as repaired) an out-of-image neighbour is flagged and `retrieve` returns false;
+    with `Mode.nearest` (the pinned code) it is clamped onto a border pixel. -/
+def neighbours (m : Mode) (shape : List Nat) (offs : List (List Int)) (p : List Int) : List Nat :=
+  offs.filterMap fun k => (fixPos m shape (addPos p k)).map (ravelI shape)
+
+/-- one pixel of the scan loop: join `i` with the value stored at every retrieved neighbour -/
+def scanPixel (m : Mode) (shape : List Nat) (offs : List (List Int)) (fuel : Nat)
+    (par : Array Int) (i : Nat) : Array Int :=
+  if par.getD i (-1) = -1 then par else
+  (neighbours m shape offs (unravelI shape i)).foldl (fun par nb =>
+      let v := par.getD nb (-1)
+      if v = -1 then par else join fuel par i v.toNat) par
+
+def initParents (data : List Int) : Array Int :=
+  ((List.range data.length).map fun i => if data.getD i 0 ≠ 0 then (i : Int) else -1).toArray
+
+/-- the parent array after the scan and the final compression of every pixel -/
+def parents (m : Mode) (shape : List Nat) (data : List Int) (offs : List (List Int)) : Array Int :=
+  let n := data.length
+  let fuel := n + 1
+  let par := (List.range n).foldl (scanPixel m shape offs fuel) (initParents data)
+  (List.range n).foldl (fun par i => if par.getD i (-1) = -1 then par else compress fuel par i) par
+
+/-! ### first-seen renumbering (shared with `relabel`) -/
+
+/-- the `std::map<int,int> seen` loop: `seen` as an association list, `next` the next fresh label;
+    returns the rewritten buffer and `next - 1`. -/
+def renumGo (seen : List (Int × Int)) (next : Int) : List Int → List Int × Int
+  | [] => ([], next - 1)
+  | v :: vs =>
+    match seen.lookup v with
+    | some l => let r := renumGo seen next vs; (l :: r.1, r.2)
+    | none => let r := renumGo ((v, next) :: seen) (next + 1) vs; (next :: r.1, r.2)
+
+/-- renumber with `bg ↦ 0` (label: `bg = -1`; relabel: `bg = 0`) -/
+def renumber (bg : Int) (vals : List Int) : List Int × Int := renumGo [(bg, 0)] 1 vals
+
+/-- model of `label`: labels (C order) and the returned count -/
+def labelModel (m : Mode) (shape : List Nat) (data : List Int) (bshape : List Nat) (bc : Array Int) :
+    List Int × Int :=
+  renumber (-1) (parents m shape data (offsets bshape bc)).toList
+
+/-! ### specification, computed independently of union–find -/
+
+/-- symmetric inside-image foreground neighbours of flat index `i` -/
+def symNeighbours (shape : List Nat) (fg : Array Bool) (offs : List (List Int)) (i : Nat) : List Nat :=
+  let p := unravelI shape i
+  (offs ++ offs.map negPos).filterMap fun k =>
+    let q := addPos p k
+    if inside shape q then
+      let j := ravelI shape q
+      if fg.getD j false then some j else none
+    else none
+
+/-- one relaxation sweep: every foreground pixel takes the minimum representative among itself and
+    its symmetric neighbours; returns the new array and whether anything changed -/
+def sweep (shape : List Nat) (fg : Array Bool) (offs : List (List Int)) (order : List Nat)
+    (rep : Array Nat) : Array Nat × Bool :=
+  order.foldl (fun (st : Array Nat × Bool) i =>
+    if !fg.getD i false then st else
+    let cur := st.1.getD i i
+    let best := (symNeighbours shape fg offs i).foldl (fun b j => min b (st.1.getD j j)) cur
+    if best < cur then (st.1.setIfInBounds i best, true) else st) (rep, false)
+
+def fixRep (shape : List Nat) (fg : Array Bool) (offs : List (List Int)) (n : Nat) :
+    Nat → Array Nat → Array Nat
+  | 0, rep => rep
+  | fuel + 1, rep =>
+    let s1 := sweep shape fg offs (List.range n) rep
+    let s2 := sweep shape fg offs (List.range n).reverse s1.1
+    if s1.2 || s2.2 then fixRep shape fg offs n fuel s2.1 else s2.1
+
+/-- specification of `label`: pixel `i` gets 0 when background, otherwise the rank (1-based) of its
+    component among the components ordered by their least flat index; count = number of components. -/
+def specLabels (shape : List Nat) (data : List Int) (bshape : List Nat) (bc : Array Int) : List Int × Int :=
+  let n := data.length
+  let fg : Array Bool := (data.map fun v => decide (v ≠ 0)).toArray
+  let offs := offsets bshape bc
+  let rep := fixRep shape fg offs n (2 * n + 2) ((List.range n).toArray)
+  let isRoot := fun (r : Nat) => fg.getD r false && rep.getD r r == r
+  let labels := (List.range n).map fun i =>
+    if fg.getD i false then (((List.range (rep.getD i i + 1)).filter isRoot).length : Int) else 0
+  (labels, (((List.range n).filter isRoot).length : Int))
+
+/-! ### driver entry -/
+
 def handle (a : Args) : String :=
+  let shape := a.nats "shape"
+  let data := a.ints "data"
+  let bshape := a.nats "bshape"
+  let bc := (a.ints "bc").toArray
   match a.str "kind" with
+  | "label" =>
+    let m := if a.str "mode" == "nearest" then Mode.nearest else Mode.constant
+    let md := labelModel m shape data bshape bc
+    let sp := specLabels shape data bshape bc
+    s!"spec={showInts sp.1} nspec={sp.2} model={showInts md.1} nmodel={md.2}"
   | k => s!"error=unknown-kind-{k}"
 
 end Mahotas.C03
